@@ -50,7 +50,9 @@ def apply_ref(M, P):
 def scale(M, P):
     d = P.shape[0]
     t = M[:d, d] if M.shape[0] == d + 1 else np.zeros(d)
-    return max(1.0, float(np.abs(P).max()) if P.size else 0.0, float(np.linalg.norm(t)))
+    # "1e-9 relative to the data magnitude": the data are the point coordinates and the translation (not the unit-size rotation entries);
+    # all-zero data are compared exactly
+    return max(float(np.abs(P).max()) if P.size else 0.0, float(np.linalg.norm(t)))
 
 
 def routes(cname, M):
